@@ -9,4 +9,5 @@ GO=${VERIF_GO:-go1.26.8}
 sed "s#@REPO@#$REPO#" go.mod.in > go.mod
 cp "$REPO/go.sum" go.sum
 mkdir -p bin
-$GO build -tags verif -o bin/kverif ./cmd/kverif
+$GO test -c -tags verif -o bin/kverif.test ./cmd/kverif
+rm -f bin/kverif
